@@ -145,7 +145,7 @@ def keygen_pred(ikm, info):
 def predicates(rng, tier, only=None):
     ps = []
     ks, ms = good_keys(rng, tier), msgs(rng, tier)
-    n = 10 if tier == "quick" else 120
+    n = 12 if tier == "quick" else 150
     for i in range(n):
         s = SUITES[i % 3]
         ps.append(Pred("sign-verify", roundtrip_pred, (s, ks[i % len(ks)], ms[(i // 3) % len(ms)])))
